@@ -1,2 +1,16 @@
 import STProofs.CostDecomp
-/-! # C08 — cost decomposition and sample fidelity -/
+import STProofs.SampleTraj
+/-!
+# C08 — cost decomposition and sample fidelity
+
+* `evaluate_cost`: the returned cost is time cost + Σ segment integrals + waypoint cost + (ρ·energy when ρ > 0), at the
+  decoded durations / waypoints / trajectory; `evaluate_segCost`, `quadSegment_cost`: each segment integral is the trapezoid
+  sum over `K + 1` nodes with weights `½, 1, …, 1, ½` times `T/K`;
+* `quadStep_sample`, `quadSegment_samples`, `segStarts_spec`: node `k` of segment `i` carries the segment index, local time
+  `(k/K)·T_i`, global time `start + Σ_{j<i} T_j + (k/K)·T_i`;
+* `basis_cubic/quintic/septic`: the basis rows give value and derivatives of the segment's polynomial;
+* **joined with the trajectory object** (`SampleTraj.sample_block`, `SampleTraj.sample_is_trajectory`): the position, velocity,
+  acceleration, jerk and snap handed to the running cost are, coordinate by coordinate, what `getTrajectory().evaluate(t_global, m)`
+  returns — the optimizer's table of basis-row constants and `PPolyND`'s falling-factorial derivative tables compute the same
+  derivatives (`basis_dRow_*`), for every order, dimension, N and node inside its segment's half-open interval.
+-/
